@@ -264,3 +264,11 @@ package zzengine
 //@   ensures result <= old(n) && (old(n) <= 3 ==> result == old(n))
 //@ func badOldParam
 //@   ensures result == old(n)
+//@ func badStaleDeadVar
+//@   loop 1: invariant 0 <= i && i <= len(xs) && n == i && (n == 0 || c == xs[i-1])
+//@   loop 1: after n == 0 || xs[n-1] == 7
+//@   ensures result == len(xs)
+//@ func okLiveVarInLoop
+//@   loop 1: invariant 0 <= i && i <= len(xs) && n == i && c == 7
+//@   loop 1: after c == 7
+//@   ensures result == len(xs) + 7
